@@ -16,7 +16,7 @@ import Biogo.Generated.Alphabets
 namespace Biogo.Drive.C01
 open Biogo.Wire Biogo.Go.Bytes Biogo.Drive.Seqio Biogo.Spec.Seqio
 
-def ops : List String := ["fa", "fq", "fap", "fva", "fvq"]
+def ops : List String := ["fa", "fq", "fap", "fva", "fvq", "fax", "fqx", "fapx"]
 
 /-- what is demanded of a parsed observation: `ns` the counts the `Write` calls returned, `ds` the
     bytes each of them emitted (both as the harness prints them), `calls` the reader's call history
@@ -94,6 +94,82 @@ def handleFq (qid : Bool) (typ : String) (enc : Biogo.Fastq.Encoding) (alpha : S
   let model := s!"w {showNats ns} {showNats ns} {hex16 (fnv1a bytes)} {bytes.length} r {fastqCalls calls}"
   verdict wf expected model obs tags
 
+/-! ### writers over an `io.Writer` that fails (ops `fax`, `fqx`)
+"The byte count returned by each write equals the number of bytes actually emitted" — also by a
+`Write` that fails part-way.  The harness writes the records, for every `k` up to the length of the
+fault-free text, to a writer that accepts exactly `k` bytes and then fails. -/
+
+/-- the failing sink seen from a writer that adds up what its `w.w.Write` calls return and stops at
+    the first error: the record whose fault-free text has `len` bytes and starts at offset `s` is
+    emitted completely when it fits (`s + len ≤ k`), otherwise its first `k - s` bytes are, and the
+    `Write` reports them with an error.  Result: the counts, and the index of the failed `Write`. -/
+def faultRun (k : Nat) : Nat → Nat → List Nat → List Nat × Option Nat
+  | _, _, [] => ([], none)
+  | i, s, len :: rest =>
+    if s + len ≤ k then
+      let (ns, e) := faultRun k (i + 1) (s + len) rest
+      (len :: ns, e)
+    else ([k - s], some i)
+
+def faultToken (lens : List Nat) (k : Nat) : String :=
+  let (ns, e) := faultRun k 0 0 lens
+  let e := match e with | some i => toString i | none => "-"
+  s!"{showNats ns}/{showNats ns}/{e}/1"
+
+/-- `lens`: what each `Write` of the fault-free run returned (the model's), `bytes` its text -/
+def faultModel (lens : List Nat) (bytes : Bytes) : String :=
+  " ".intercalate (["x", toString bytes.length, hex16 (fnv1a bytes)]
+    ++ (List.range (bytes.length + 1)).map (faultToken lens))
+
+/-- what is demanded of one failure point `<n,…>/<delta,…>/<e>/<p>`: every returned count equals
+    the bytes emitted by that `Write` (the failed one included), and the bytes emitted are the first
+    bytes of the fault-free text -/
+def faultDemand (k : Nat) (tok : String) : Option String :=
+  match tok.splitOn "/" with
+  | [ns, ds, _, p] =>
+    if ns ≠ ds then some s!"write-count, writer failing after {k} bytes: returned n={ns} bytes emitted={ds}"
+    else if p ≠ "1" then some s!"writer failing after {k} bytes: the bytes emitted are not a prefix of the fault-free text"
+    else none
+  | _ => some "unparsable-observation"
+
+def faultDemands : Nat → List String → Option String
+  | _, [] => none
+  | k, t :: ts => match faultDemand k t with
+    | some why => some why
+    | none => faultDemands (k + 1) ts
+
+/-- `noPanic`: the writer must not panic (width ≥ 1) -/
+def faultVerdict (noPanic : Bool) (model obs : String) (tags : List String) : Verdict :=
+  if obs.startsWith "panic:" || obs == "hang" then
+    (if noPanic then fail "writer-panicked-or-hung" tags else diff (model.take 300).toString tags)
+  else
+    match tokens obs with
+    | "x" :: _ :: _ :: toks =>
+      match faultDemands 0 toks with
+      | some why => fail why tags
+      | none => if model == obs then ok tags else diff (model.take 600).toString tags
+    | _ => if model == obs then ok tags else diff (model.take 600).toString tags
+
+def handleFax (width : Nat) (typ alpha : String) (rs : List (Bytes × Bytes × Bytes × Bytes)) (obs : String)
+    (fastaCfg : Biogo.Fasta.Cfg := fastaCfg) (userPrefixes : Bool := false) : Verdict :=
+  let recs : List Biogo.Fasta.Rec := rs.map fun (n, d, l, _) => ⟨n, d, l⟩
+  let tags := ["fasta", "failing-writer", "typ-" ++ typ, alpha, s!"recs{min recs.length 3}",
+               if width ≤ 3 then "width1-3" else "width<4096"] ++ (if width ≥ 1 && !recs.isEmpty then ["nt"] else [])
+             ++ (if userPrefixes then ["user-prefixes"] else [])
+  match Biogo.Fasta.writeAll { cfg := fastaCfg, width := width } {} recs with
+  | .error p => if obs.startsWith "panic:" then ok ("expected-panic" :: tags) else diff ("panic:" ++ p.code) tags
+  | .ok (sink, ns) => faultVerdict (width ≥ 1) (faultModel ns sink.bytes) obs tags
+
+def handleFqx (qid : Bool) (typ : String) (enc : Biogo.Fastq.Encoding) (alpha : String)
+    (rs : List (Bytes × Bytes × Bytes × Bytes)) (obs : String) : Verdict :=
+  let recs : List Biogo.Fastq.QRec := rs.map fun (n, d, l, q) => ⟨n, d, l, q⟩
+  let plain := typ == "s"
+  let tags := ["fastq", "failing-writer", "typ-" ++ typ, alpha, encName enc, if qid then "qid" else "plus-only",
+               s!"recs{min recs.length 3}"] ++ (if recs.isEmpty then [] else ["nt"])
+  let (wrecs, wenc) := if plain then (recs.map Biogo.Fastq.ofPlain, Biogo.Fastq.Encoding.sanger) else (recs, enc)
+  let (sink, ns) := Biogo.Fastq.writeAll qtables qid wenc {} wrecs
+  faultVerdict true (faultModel ns sink.bytes) obs tags
+
 /-- the letters a `Format` verb prints: for a QSeq each letter goes through `seq.AmbigFilter`
     with the default threshold 3 and the alphabet's gap / ambiguous letters -/
 def shownLetters (typ alpha : String) (l q : Bytes) : Bytes :=
@@ -145,6 +221,18 @@ def handle (line : String) : String :=
       match parseBool qid, encOfString enc, parseRecs rest with
       | some qid, some enc, some rs => handleFq qid typ enc alpha rs obs
       | _, _, _ => bad "fq"
+    | "fax" :: width :: typ :: alpha :: rest =>
+      match parseNat width, parseRecs rest with
+      | some w, some rs => handleFax w typ alpha rs obs
+      | _, _ => bad "fax"
+    | "fapx" :: width :: idp :: sp :: typ :: alpha :: rest =>
+      match parseNat width, bytesOfHex idp, bytesOfHex sp, parseRecs rest with
+      | some w, some idp, some sp, some rs => handleFax w typ alpha rs obs { idPrefix := idp, seqPrefix := sp } true
+      | _, _, _, _ => bad "fapx"
+    | "fqx" :: qid :: typ :: enc :: alpha :: rest =>
+      match parseBool qid, encOfString enc, parseRecs rest with
+      | some qid, some enc, some rs => handleFqx qid typ enc alpha rs obs
+      | _, _, _ => bad "fqx"
     | "fva" :: w :: prec :: typ :: alpha :: rest =>
       match optNat w, optNat prec, parseRecs rest with
       | some w, some prec, some [r] => handleFormat true w prec false typ .sanger alpha r obs
